@@ -137,7 +137,7 @@ class Scenario:
         o["F", "A"], o["F", "B"] = np.array([[0.0, 1.0, 0.0], [0.0, 0.0, 1.0], [0.0, 0.0, 0.0]]), rng.randn(3, 3)
         B1 = rng.randn(3, 2); B2 = rng.randn(3, 3)
         o["Qm", "A"], o["Qm", "B"] = B1 @ B1.T, B2 @ B2.T
-        o["kx", "A"], o["kx", "B"] = rng.randn(3), rng.randn(3)
+        o["kx", "A"], o["kx", "B"] = rng.randn(3), np.zeros(3)      # the feedback filter calls correct with an all-zero a-priori vector
         A1 = rng.randn(3, 3); A2 = rng.randn(3, 3)
         o["kP", "A"], o["kP", "B"] = A1 @ A1.T, A2 @ A2.T
         o["kz", "A"], o["kz", "B"] = rng.randn(2), rng.randn(2)
